@@ -1,7 +1,7 @@
 SPECIFICATION Spec
 CONSTANTS
   Fs = {2, 4}
-  Stricts = {0, 1}
+  Stricts = {0}
   T0s = {0}
   W0 = 40
   Deltas = {1, 2}
